@@ -1,6 +1,7 @@
 package props
 
 import (
+	"encoding/hex"
 	"fmt"
 	"strings"
 	"testing"
@@ -27,7 +28,13 @@ const (
 // ops >= opUnreadK stand for UnreadMany(op - opUnreadK), any count from 0 upwards (the random histories only)
 const opUnreadK = 100
 
+// ops in [opUnreadNeg, opUnreadNeg+10) stand for UnreadMany with a negative count -1 .. -10: nothing to step back
+const opUnreadNeg = 50
+
 func scanOpName(op int) string {
+	if op >= opUnreadNeg && op < opUnreadNeg+10 {
+		return fmt.Sprintf("UnreadMany(%d)", -(op - opUnreadNeg + 1))
+	}
 	if op >= opUnreadK {
 		return fmt.Sprintf("UnreadMany(%d)", op-opUnreadK)
 	}
@@ -49,6 +56,9 @@ type c11Case struct {
 	// Quiet: Line() / Column() are not read between the steps (only the operations' own results are checked, and
 	// everything at the end), so that an observation cannot repair lazily maintained state before it is used
 	Quiet bool `json:"quiet,omitempty"`
+	// ContentHex: the content as hex-encoded bytes, for contents that are not valid UTF-8 (JSON cannot carry them);
+	// when set it replaces Content. The scanner's characters are then what Go's []rune conversion yields.
+	ContentHex string `json:"contentHex,omitempty"`
 }
 
 // refCoords is the reference coordinate model: coords[p+1] = (line, column) reported when the cursor
@@ -81,6 +91,11 @@ func refCoords(content []rune) [][2]int {
 }
 
 func checkC11(c c11Case) (fail *evid.Fail) {
+	if c.ContentHex != "" {
+		if b, err := hex.DecodeString(c.ContentHex); err == nil {
+			c.Content = string(b)
+		}
+	}
 	content := []rune(c.Content)
 	n := len(content)
 	coords := refCoords(content)
@@ -118,6 +133,10 @@ func checkC11(c c11Case) (fail *evid.Fail) {
 		}
 		for i, op := range c.Ops {
 			name := scanOpName(op)
+			if op >= opUnreadNeg && op < opUnreadNeg+10 {
+				s.UnreadMany(-(op - opUnreadNeg + 1))
+				op = -1
+			}
 			if op >= opUnreadK {
 				k := unreadCount(op)
 				s.UnreadMany(k)
@@ -234,6 +253,10 @@ func c11Classify(c c11Case) (bool, []string) {
 	nt := false
 	labels := map[string]bool{}
 	for _, op := range c.Ops {
+		if op >= opUnreadNeg && op < opUnreadNeg+10 {
+			labels["unread-many-negative"] = true
+			continue
+		}
 		if op >= opUnreadK {
 			if unreadCount(op) > 16 {
 				labels["unread-many>16"] = true
@@ -408,6 +431,9 @@ func TestC11_Rapid(t *testing.T) {
 		for i := range ops {
 			if (ops[i] == opUnread2 || ops[i] == opUnread3) && rapid.Bool().Draw(rt, "anycount") {
 				ops[i] = opUnreadK + rapid.SampledFrom([]int{0, 1, 2, 4, 5, 8, 15, 16, 17, 18, 20, 31, 32, 33, 40, 64, 65, 100, 300, 3000}).Draw(rt, "count")
+				if rapid.IntRange(0, 5).Draw(rt, "negative") == 0 {
+					ops[i] = opUnreadNeg + rapid.IntRange(0, 9).Draw(rt, "negcount")
+				}
 			}
 		}
 		if n > 40 {
@@ -416,6 +442,18 @@ func TestC11_Rapid(t *testing.T) {
 			ops = append(walk, ops...)
 		}
 		c := c11Case{Content: sb.String(), Ops: ops, Quiet: rapid.Bool().Draw(rt, "quiet")}
+		if rapid.IntRange(0, 7).Draw(rt, "invalidutf8") == 0 {
+			// bytes that are not UTF-8 (lone continuation and lead bytes, truncated and overlong forms, an encoded
+			// surrogate) spliced in front of line breaks and characters
+			raw := []byte(c.Content)
+			for k := rapid.IntRange(1, 3).Draw(rt, "badn"); k > 0; k-- {
+				at := rapid.IntRange(0, len(raw)).Draw(rt, "badat")
+				bad := rapid.SampledFrom([]string{"\xff", "\x80", "\xc3", "\xe4\xb8", "\xf0\x9f\x98", "\xc0\x8a", "\xed\xa0\x80", "\xfe\n", "\xc3\r\n"}).Draw(rt, "bad")
+				raw = append(raw[:at:at], append([]byte(bad), raw[at:]...)...)
+			}
+			c.Content = string(raw)
+			c.ContentHex = hex.EncodeToString(raw)
+		}
 		nt, labels := c11Classify(c)
 		rec.Case(c.Content+"|"+string(opsKey(ops)), nt, func() interface{} { return c }, labels...)
 		if f := checkC11(c); f != nil {
